@@ -10,6 +10,8 @@ pub(crate) struct SourceLineRanges {
     pub(crate) line_number_end: usize,
     pub(crate) token_ranges: Option<Vec<Range<usize>>>,
     pub(crate) length: usize,
+    /// If the line failed to tokenize: where, computed against the line's text.
+    pub(crate) tokenization_error_range: Option<Range<usize>>,
 }
 
 #[derive(Default)]
@@ -74,7 +76,11 @@ impl SourceFileMap {
             DiagnosticMessage::Error(file_line_number, err) => {
                 match &err.error {
                     InterpreterError::Syntax(SyntaxError::Tokenization(t)) => {
-                        let range = t.string_range(self.file_line_ranges[*file_line_number].length);
+                        let line_ranges = &self.file_line_ranges[*file_line_number];
+                        let range = line_ranges
+                            .tokenization_error_range
+                            .clone()
+                            .unwrap_or_else(|| t.string_range(line_ranges.length));
                         return Some((*file_line_number, range));
                     }
                     _ => {}
